@@ -271,6 +271,23 @@ def modstate() -> Dict:
     }
 
 
+def config_scalars() -> Dict[str, Any]:
+    """String and float globals of the pacti modules: configuration-like values (solver method names, tolerances).
+    Containers are not looked at (a correct cache is legitimate state), nor ints / bools / None (counters, lazy-init flags)."""
+    import sys as _sys  # noqa: WPS433
+
+    out: Dict[str, Any] = {}
+    for mname in sorted(_sys.modules):
+        if mname == "pacti" or mname.startswith("pacti."):
+            mod = _sys.modules[mname]
+            for k, v in sorted(vars(mod).items()):
+                if k.startswith("__"):
+                    continue
+                if type(v) is str or type(v) is float:
+                    out[mname + "." + k] = v
+    return out
+
+
 def module_globals() -> List[Any]:
     import pacti.contracts.polyhedral_iocontract as pc  # noqa: WPS433
     import pacti.terms.polyhedra.polyhedra as pl  # noqa: WPS433
@@ -308,6 +325,7 @@ class Session:
         self.parse_steps = 0
         self.recent: Dict[str, str] = {}
         self.giveup_seen = False
+        self.expected_scalars: Optional[Dict[str, Any]] = None
         self.history: List[Dict] = []  # clean, unfaulted steps: (plan step, pre-call canonical arguments, outcome)
 
     # ---- helpers
@@ -342,6 +360,13 @@ class Session:
                 self.pool[slot] = cn.rebuild(self.snap[slot])
 
     def check_modstate(self, step_i: int, op: str, when: str) -> None:
+        sc = config_scalars()
+        if self.expected_scalars is not None:
+            changed = {k: [self.expected_scalars[k], sc[k]] for k in sc if k in self.expected_scalars and type(sc[k]) is type(self.expected_scalars[k]) and sc[k] != self.expected_scalars[k]}
+            if changed:
+                self.violate(step_i, op, "O2" if not when.startswith("vandal") else "O3b", {"what": "a configuration-like module global (string / float) changed value " + when, "diff": changed},
+                             "target=module-scalar:%s %s" % (",".join(sorted(changed)), when))
+        self.expected_scalars = sc
         now = modstate()
         if now != self.expected_mod:
             diff = {k: [self.expected_mod.get(k), now.get(k)] for k in now if now.get(k) != self.expected_mod.get(k)}
